@@ -353,8 +353,9 @@ def lookup_hash(
     if cache_by_name:
         for name in name_list:
             if name:  # (skips iana name if it's empty)
-                assert cache.get(name) in [None, info], f"{name!r} already in cache"
-                cache[name] = info
+                # NOTE: another thread may have resolved the same digest in the meantime
+                #       and stored an equivalent record: the first one stays.
+                cache.setdefault(name, info)
     return info
 
 
